@@ -46,37 +46,172 @@ def sanitised_at(fnode, use_stmt, name):
     return False
 
 
-def judge_compute(f):
-    """-> [(status, node, detail)] for a `_compute`-like function whose result depends on divisions."""
+MAYINF, CLEAN = 'mayinf', 'clean'
+
+
+def _isinf_of(e):
+    """text of X when e is `isinf(X)` / `~isfinite(X)` / `np.logical_not(isfinite(X))`, else None"""
+    if isinstance(e, ast.Call) and norm(e.func).split('.')[-1] == 'isinf' and len(e.args) == 1:
+        return norm(e.args[0])
+    if isinstance(e, ast.UnaryOp) and isinstance(e.op, ast.Invert) and isinstance(e.operand, ast.Call) and norm(e.operand.func).split('.')[-1] == 'isfinite' and len(e.operand.args) == 1:
+        return norm(e.operand.args[0])
+    return None
+
+
+class Taint:
+    """which values may hold +/-inf produced by a division: a small forward dataflow (names -> mayinf / clean)"""
+
+    def __init__(self, fnode, prog=None, func=None, depth=0):
+        self.fnode = fnode
+        self.prog, self.func, self.depth = prog, func, depth
+        self.env = {}
+        self.out = []
+        self.has_div = False
+
+    def ev(self, e):
+        if e is None:
+            return CLEAN
+        if isinstance(e, ast.Name):
+            return self.env.get(e.id, CLEAN)
+        if isinstance(e, ast.BinOp):
+            l, r = self.ev(e.left), self.ev(e.right)
+            if isinstance(e.op, (ast.Div, ast.FloorDiv)):
+                self.has_div = True
+                return MAYINF
+            return MAYINF if MAYINF in (l, r) else CLEAN
+        if isinstance(e, ast.UnaryOp):
+            return self.ev(e.operand)
+        if isinstance(e, ast.Call):
+            name = norm(e.func).split('.')[-1]
+            if name == 'where' and len(e.args) == 3:
+                x = _isinf_of(e.args[0])
+                nan1 = norm(e.args[1]).split('.')[-1].lower() == 'nan'
+                nan2 = norm(e.args[2]).split('.')[-1].lower() == 'nan'
+                if x is not None and nan1 and norm(e.args[2]) == x:
+                    self.ev(e.args[2])
+                    return CLEAN
+                xf = None
+                if isinstance(e.args[0], ast.Call) and norm(e.args[0].func).split('.')[-1] == 'isfinite' and len(e.args[0].args) == 1:
+                    xf = norm(e.args[0].args[0])
+                if xf is not None and nan2 and norm(e.args[1]) == xf:
+                    self.ev(e.args[1])
+                    return CLEAN
+            if name == 'nan_to_num':
+                return CLEAN
+            if name == '_compute_metric' or name in ('divide', 'true_divide'):
+                self.has_div = True
+                for a in e.args:
+                    self.ev(a)
+                return MAYINF
+            if self.prog is not None and self.func is not None and self.depth < 2 and isinstance(e.func, ast.Name):
+                r = self.prog.resolve(self.func.mod, e.func)
+                if r and r[0] == 'func' and r[1].mod is self.func.mod and not e.keywords and len(e.args) == len(r[1].params):
+                    callee = r[1]
+                    sub = Taint(callee.node, self.prog, callee, self.depth + 1)
+                    sub.env = {p_: self.ev(a) for p_, a in zip(callee.params, e.args)}
+                    sub.block(callee.node.body)
+                    self.has_div = self.has_div or sub.has_div
+                    rets = [o for o in sub.out if isinstance(o[1], ast.Return)]
+                    if rets:
+                        return MAYINF if any(o[0] == 'bad' for o in rets) else CLEAN
+            vals = [self.ev(a) for a in e.args] + [self.ev(k.value) for k in e.keywords]
+            if isinstance(e.func, ast.Attribute) and not norm(e.func.value) in ('_np', 'np', 'numpy'):
+                vals.append(self.ev(e.func.value))
+            return MAYINF if MAYINF in vals else CLEAN
+        if isinstance(e, ast.Attribute):
+            return self.ev(e.value)
+        if isinstance(e, ast.Subscript):
+            return self.ev(e.value)
+        if isinstance(e, (ast.Tuple, ast.List)):
+            vs = [self.ev(x) for x in e.elts]
+            return MAYINF if MAYINF in vs else CLEAN
+        if isinstance(e, ast.IfExp):
+            vs = [self.ev(e.body), self.ev(e.orelse)]
+            return MAYINF if MAYINF in vs else CLEAN
+        return CLEAN
+
+    def block(self, stmts):
+        for st in stmts:
+            self.stmt(st)
+
+    def stmt(self, st):
+        if isinstance(st, ast.Assign) and len(st.targets) == 1:
+            t, v = st.targets[0], st.value
+            if isinstance(t, ast.Subscript) and isinstance(t.value, ast.Name):
+                x = _isinf_of(t.slice)
+                if x == t.value.id and norm(v).split('.')[-1].lower() == 'nan':
+                    self.env[t.value.id] = CLEAN            # x[isinf(x)] = nan
+                    return
+                val = self.ev(v)
+                if val == MAYINF:
+                    self.env[t.value.id] = MAYINF
+                    self.out.append(('bad', st, f'`{norm(st)[:70]}` stores a ratio into the result without the inf -> NaN mapping'))
+                elif self.has_div and any(isinstance(n, ast.Name) and n.id in self.env for n in ast.walk(v)):
+                    self.out.append(('ok', st, f'piece stored into `{t.value.id}` after the inf -> NaN mapping'))
+                return
+            if isinstance(t, ast.Name):
+                self.env[t.id] = self.ev(v)
+                return
+            if isinstance(t, ast.Tuple):
+                val = self.ev(v)
+                for x in t.elts:
+                    if isinstance(x, ast.Name):
+                        self.env[x.id] = val
+                return
+            self.ev(v)
+        elif isinstance(st, ast.AugAssign):
+            val = self.ev(st.value)
+            if isinstance(st.op, (ast.Div, ast.FloorDiv)):
+                self.has_div = True
+                val = MAYINF
+            if isinstance(st.target, ast.Name):
+                if val == MAYINF:
+                    self.env[st.target.id] = MAYINF
+        elif isinstance(st, (ast.For, ast.While)):
+            # two passes: a value made dirty late in the body reaches the top of the next iteration
+            self.block(st.body)
+            self.out = [o for o in self.out if o[0] == 'bad'] and self.out
+            self.block(st.body)
+            self.block(st.orelse)
+        elif isinstance(st, ast.If):
+            e0 = dict(self.env)
+            self.block(st.body)
+            e1 = self.env
+            self.env = dict(e0)
+            self.block(st.orelse)
+            for k in set(e1) | set(self.env):
+                if MAYINF in (e1.get(k), self.env.get(k)):
+                    self.env[k] = MAYINF
+        elif isinstance(st, ast.Try):
+            self.block(st.body)
+            for h in st.handlers:
+                self.block(h.body)
+            self.block(st.finalbody)
+        elif isinstance(st, ast.With):
+            self.block(st.body)
+        elif isinstance(st, ast.Return) and st.value is not None:
+            val = self.ev(st.value)
+            if val == MAYINF:
+                self.out.append(('bad', st, f'`{norm(st)[:70]}` returns a value that depends on a division without the inf -> NaN mapping: an undefined entry (zero denominator) '
+                                            f'comes out as +/-inf, not NaN'))
+            else:
+                self.out.append(('ok', st, f'`{norm(st)[:50]}`: every ratio it depends on passed through the inf -> NaN mapping'))
+        elif isinstance(st, ast.Expr):
+            self.ev(st.value)
+
+
+def judge_compute(f, prog=None):
+    """-> ([(status, node, detail)], has_division) for a `_compute`-like function"""
+    t = Taint(f.node, prog, f)
+    t.block(f.node.body)
+    seen = set()
     out = []
-    has_div = any(isinstance(n, ast.BinOp) and isinstance(n.op, ast.Div) for n in ast.walk(f.node)) or \
-        any(isinstance(n, ast.Call) and isinstance(n.func, ast.Attribute) and n.func.attr == '_compute_metric' for n in ast.walk(f.node))
-    if not has_div:
-        return out, False
-    rets = [n for n in ast.walk(f.node) if isinstance(n, ast.Return) and n.value is not None]
-    for r in rets:
-        v = r.value
-        if not isinstance(v, ast.Name):
-            out.append(('bad', r, f'`{norm(r)[:70]}` returns a ratio directly: an undefined entry (zero denominator) comes out as +/-inf, not NaN'))
-            continue
-        name = v.id
-        if sanitised_at(f.node, r, name):
-            out.append(('ok', r, f'`{name}` passes through the inf -> NaN mapping before it is returned'))
-            continue
-        # result buffer filled piece by piece
-        stores = [n for n in ast.walk(f.node) if isinstance(n, ast.Assign) and isinstance(n.targets[0], ast.Subscript)
-                  and isinstance(n.targets[0].value, ast.Name) and n.targets[0].value.id == name]
-        allocs = [n for n in ast.walk(f.node) if isinstance(n, ast.Assign) and isinstance(n.targets[0], ast.Name) and n.targets[0].id == name]
-        buffer = allocs and all(isinstance(a.value, ast.Call) and norm(a.value.func).split('.')[-1] in ('empty', 'zeros') for a in allocs)
-        if buffer and stores:
-            for s in stores:
-                pieces = [n.id for n in ast.walk(s.value) if isinstance(n, ast.Name) and isinstance(n.ctx, ast.Load)]
-                locals_ = [p for p in pieces if any(isinstance(a, ast.Assign) and isinstance(a.targets[0], ast.Name) and a.targets[0].id == p
-                                                    for a in ast.walk(f.node))]
-                if locals_ and all(sanitised_at(f.node, s, p) for p in locals_):
-                    out.append(('ok', s, f'piece `{locals_[0]}` is mapped inf -> NaN before it is stored into `{name}`'))
-                else:
-                    out.append(('bad', s, f'`{norm(s)[:70]}` stores a ratio into the result without the inf -> NaN mapping'))
-        else:
-            out.append(('bad', r, f'`{name}` depends on a division and is returned without the inf -> NaN mapping its sibling computations apply'))
-    return out, True
+    for o in t.out:
+        k = (o[0], id(o[1]))
+        if k not in seen:
+            seen.add(k)
+            out.append(o)
+    # a statement reported bad in one pass and ok in another is bad
+    bad_nodes = {id(o[1]) for o in out if o[0] == 'bad'}
+    out = [o for o in out if o[0] == 'bad' or id(o[1]) not in bad_nodes]
+    return out, t.has_div
